@@ -18,9 +18,9 @@ func init() { vfDrivers["C04"] = &vfDriver{Run: vfC04, QuickRuns: 500} }
 
 type vfC04Token struct {
 	Key, Iss, Aud, Aud2, Exp, Verified, Values, Missing string
-	Accept                                        bool // should_accept, computed from the construction parameters
-	Either                                        bool // boundary cases the statement leaves open
-	Reason                                        string
+	Accept                                              bool // should_accept, computed from the construction parameters
+	Either                                              bool // boundary cases the statement leaves open
+	Reason                                              string
 }
 
 type vfC04Case struct {
